@@ -33,7 +33,8 @@ _STR_METHODS = {"startswith", "endswith", "strip", "lstrip", "rstrip", "partitio
 _SET_METHODS = {"intersection", "union", "difference", "issubset", "issuperset", "isdisjoint", "symmetric_difference", "copy"}
 _RE_PURE = {"re.split", "re.findall"}
 _TYPES = {"float": float, "int": int, "str": str, "bool": bool, "bytes": bytes}
-_ATTRS = {"math.inf": math.inf, "math.nan": math.nan, "math.pi": math.pi, "keyword.kwlist": tuple(_keyword.kwlist), "keyword.softkwlist": tuple(getattr(_keyword, "softkwlist", ()))}
+import datetime as _dtmod
+_ATTRS = {"timezone.utc": _dtmod.timezone.utc, "datetime.timezone.utc": _dtmod.timezone.utc, "math.inf": math.inf, "math.nan": math.nan, "math.pi": math.pi, "keyword.kwlist": tuple(_keyword.kwlist), "keyword.softkwlist": tuple(getattr(_keyword, "softkwlist", ()))}
 
 
 def ev(t: Sym, env: Dict[Any, Any]) -> Any:
@@ -217,6 +218,24 @@ def ev(t: Sym, env: Dict[Any, Any]) -> Any:
                 recv = None
             if isinstance(recv, _dt.timedelta):
                 return recv.total_seconds()
+        if t[1][0] == "a" and t[1][2] in ("replace", "utcoffset", "astimezone", "date", "time", "timetz", "toordinal", "dst", "tzname", "isoformat") :
+            # pure methods of a datetime given by the scenario
+            import datetime as _dt
+            try:
+                recv = ev(t[1][1], env)
+            except Unknown:
+                recv = None
+            if isinstance(recv, _dt.datetime):
+                try:
+                    return getattr(recv, t[1][2])(*[ev(x, env) for x in t[2]], **{k_: ev(v_, env) for k_, v_ in t[3]})
+                except (TypeError, ValueError, OverflowError) as e:
+                    raise Unknown(f"{t[1][2]}: {e}")
+        if name in ("datetime", "datetime.datetime", "timezone", "datetime.timezone"):
+            import datetime as _dt
+            try:
+                return (_dt.datetime if name.endswith("datetime") else _dt.timezone)(*[ev(x, env) for x in t[2]], **{k_: ev(v_, env) for k_, v_ in t[3]})
+            except (TypeError, ValueError, OverflowError) as e:
+                raise Unknown(f"{name}: {e}")
         if name in ("timedelta", "datetime.timedelta"):
             import datetime as _dt
             try:
